@@ -140,6 +140,27 @@ def check_expectation_values(ctx):
     if not stores:
         ctx.undecided(R1, fi.key + ":stores", "no stores into the correlation matrix", fi)
         return
+    # the matrix has one row and one column per enumerated term: its size is len(<the enumerated expression>). len() of the
+    # operator itself is a different number for a single PauliTerm (its operator count; `.terms` is then [term])
+    cdefs = [v for v in d.defs.get(corr, []) if isinstance(v, ast.Call)] if corr and corr.isidentifier() else []
+    if len(cdefs) == 1 and cdefs[0].args:
+        lens, todo, hops = [], [cdefs[0].args[0]], 0
+        while todo and hops < 12:
+            e = todo.pop()
+            hops += 1
+            for x in ast.walk(e):
+                if isinstance(x, ast.Call) and dotted(x.func) == "len" and len(x.args) == 1:
+                    lens.append(x.args[0])
+                elif isinstance(x, ast.Name) and x.id not in (op, "self", "np"):
+                    todo.extend(v for v in d.defs.get(x.id, []) if isinstance(v, ast.AST))
+        where_c = f"{fi.module.relpath}:{cdefs[0].lineno}"
+        if not lens:
+            ctx.undecided(R1, fi.key + ":matrix-size", f"cannot find the len(...) that sizes {short(cdefs[0])}", where_c)
+        else:
+            bad = [x for x in lens if norm(x) != f"{op}.terms"]
+            ctx.check(not bad, R1, fi.key + ":matrix-size", "the correlation matrix has len(operator.terms) rows and columns, the sequence the pair loops enumerate", f"the correlation matrix is sized by len({short(bad[0]) if bad else ''}) while the pair loops enumerate {op}.terms: the two differ for a single PauliTerm (len = number of its Pauli factors, terms = [the term]), so the matrix has the wrong shape or the stores run out of bounds", where_c)
+    else:
+        ctx.undecided(R1, fi.key + ":matrix-size", "cannot find the single construction of the correlation matrix", fi)
     marked: Dict[str, ast.AST] = {}
     for s in ast.walk(il):
         if isinstance(s, ast.Assign) and isinstance(s.targets[0], ast.Name):
